@@ -189,12 +189,13 @@ Definition ck_of (prelen : N) (upper : bytes) : N :=
 Definition zero_ck (prelen : N) (upper : bytes) : bytes :=
   firstn (N.to_nat prelen) upper ++ [0; 0] ++ skipn (N.to_nat prelen + 2) upper.
 
+(** what the runner can tell apart without reading error texts: ok, error, panic *)
 Definition res_code {A} (r : res A) : N :=
-  match r with Ok _ => 0 | ErrNoDst => 1 | ErrNoSrc => 2 | Panic => 3 end.
+  match r with Ok _ => 0 | ErrNoDst => 1 | ErrNoSrc => 1 | Panic => 3 end.
 
 Inductive case :=
 (* one serialization: address header, L4 header fields, payload; the implementation's result
-   (code 0 ok + L4 bytes, 1/2 error, 3 panic); then single-bit flips of the input
+   (code 0 ok + L4 bytes, 1 error, 3 panic); then single-bit flips of the input
    (region, index, bit) with the checksum the implementation writes for the flipped input *)
 | CSer (h : addr_hdr) (l : l4) (plen : N) (payload : list int)
        (impl_code : N) (impl_len : N) (impl : list int)
